@@ -50,6 +50,16 @@ package main
 // below the idle timeout took more than 60% of it, an answer that should beat the response-header timeout took more than 60% of it);
 // such a case is inconclusive for the model driver, never a failure.
 // uri/uripost entries with an odd index carry a tag after the URI (it never reaches the wire).
+// Round 3:
+//   shared=<n> [0]                   the gun option shared-client {enabled: true, client-number: n}; as core/engine does, one more gun is created
+//                                    for WarmUp and its result handed to every Bind as GunDeps.Shared (always, also without shared clients)
+//   redir=1                          the gun option redirect: true (with rsp=redir the decoy is reached at the operator's demand)
+//   src=uris                         uri format: the lines of the ammo are given in the provider's `uris` option instead of a file
+//   lim=<n> [0]                      the provider's `limit` option
+//   late=1                           the target starts to listen only after the gun factory ran (its reachability lookup of a named target is
+//                                    refused, nothing is pre-resolved, the DNS-caching dialer resolves at the first shot)
+// All byte strings of the line protocol are hex with run-length segments (see hx): bodies beyond 1 MiB, URIs and header values beyond
+// 4 KiB stay short.
 
 import (
 	"bufio"
@@ -1398,7 +1408,7 @@ func bigBody(r *rand.Rand) string {
 }
 
 func genBody(r *rand.Rand, text bool) string {
-	if r.Intn(150) == 0 {
+	if r.Intn(500) == 0 {
 		return bigBody(r)
 	}
 	switch r.Intn(7) {
@@ -1421,8 +1431,8 @@ func genBody(r *rand.Rand, text bool) string {
 		if text {
 			return strings.Repeat("x", 1+r.Intn(3000))
 		}
-		n := 1 + r.Intn(6000)
-		if r.Intn(4) == 0 {
+		n := 1 + r.Intn(5000)
+		if r.Intn(10) == 0 {
 			n = 1 + r.Intn(70000) // beyond the 64 KiB of a bufio.Scanner token
 		}
 		b := make([]byte, n)
@@ -2111,7 +2121,7 @@ func c09Gen(r *rand.Rand, tier string) []string {
 	out := timedCases(r, nTimed)
 	nSize, nR3 := 16, 24
 	if tier == "thorough" {
-		nSize, nR3 = 160, 600
+		nSize, nR3 = 96, 360
 	}
 	out = append(out, sizeCases(r, nSize)...)
 	out = append(out, r3Cases(r, nR3)...)
@@ -2249,7 +2259,10 @@ func main() {
 			"their defaults (margins >= 2.5x, a slow machine is reported as tm=late and skipped); answer status 2xx-5xx with bodies; " +
 			"file layout (blank lines, blanks around lines, multi-word tags, no final newline, CRLF, multi-line JSON); the gun's optional " +
 			"features (auto-tag, answlog, httptrace trace/dump, debug logging) and dns-cache off; plus direct " +
-			"CanonicalMIMEHeaderKey comparisons. Driven through config.DecodeAndValidate -> registered provider + registered http gun " +
+			"CanonicalMIMEHeaderKey comparisons; round 3: shared-client pools of 1-3 clients (sequential shooting), redirect: true with and " +
+			"without a redirecting target, the inline `uris` option, the provider's limit, a target that comes up after the gun factory ran, " +
+			"sizes (bodies beyond the decoders' 1 MiB read chunk and around the 4096-byte bufio buffers, URIs up to 12 KB, header values up " +
+			"to 24 KB, dozens of header lines, a dozen entries, three passes). Driven through config.DecodeAndValidate -> registered provider + registered http gun " +
 			"against an in-process recording server. non-trivial = at least one request arrived (or a canon comparison); " +
 			"distinct = distinct input line",
 	})
